@@ -305,6 +305,7 @@ class Ctx:
         for key, n in sorted(self.known_hits.items()):
             print('KNOWN-FINDING: property=%s %s (%d case(s) this run) — %s' % (self.pid, key, n, self.findings['known'][self.pid][key]))
         lines = []
+        self.violations.sort(key=lambda pw: os.path.getsize(pw[0]))
         for path, what in self.violations[:3]:
             lines.append('VIOLATION property=%s replay=%s' % (self.pid, path))
             print('  ' + what, file=sys.stderr)
